@@ -63,6 +63,7 @@ THEOREMS = [
     "IrVerif.Names.C15_gen_default_raises_only_on_refusal",
     "IrVerif.Names.C15_illscoped_nodes",
     "IrVerif.Names.C15_illscoped_values",
+    "IrVerif.Names.C15_illscoped_first_holder",
 ]
 ASSUMPTIONS = [
     "Python set/dict membership, dict insertion order and f-string decimal printing of int are modelled by list "
